@@ -4,7 +4,9 @@ CONSTANTS
   Vals = {7}
   Types = {"big", "small"}
   Variant = "intended"
-  Depth = 11
+  MaxDepth = 2
+  Throws = {FALSE, TRUE}
+  Depth = 8
 SPECIFICATION GSpec
 CONSTRAINT Emit
 CHECK_DEADLOCK FALSE
